@@ -102,6 +102,25 @@ Theorem C02_error_is_warning_and_continues : forall conns Ts n,
 Proof. exact m_error. Qed.
 Print Assumptions C02_error_is_warning_and_continues.
 
+(* processing continues whatever the modifiers' errors are: upstream is
+   contacted exactly as the mode prescribes (once for a plain request that
+   is not skipped, once for a blind CONNECT, not at all after a hijack by
+   the request modifier) and the response modifier is handed the origin's
+   answer: its status (203 in the harness, 200 for an established tunnel /
+   skip / MITM) without warnings, or the 502 + one warning of a failed round
+   trip or dial, whatever kind of error that was. *)
+Theorem C02_upstream_contacted_and_status_is_origins : forall conns Ts n,
+  model_obs fixed conns = Some (Ts, n) ->
+  all_conns (fun k b reqs T =>
+    forall i q, nth_error reqs i = Some q ->
+      let E := ex (b + i) T in
+      E = [] \/
+      (if is_qhijack q then count is_contact E = 0
+       else count is_contact E = want_contacts q /\ find_resmod E = Some (want_status q)))
+    0 0 conns Ts.
+Proof. exact m_relay. Qed.
+Print Assumptions C02_upstream_contacted_and_status_is_origins.
+
 (* skip round trip: no upstream contact and, unless the same call hijacked
    the session, a warning-free 200 reaches the response modifier (and, by
    the previous theorem, the client) — for plain
